@@ -34,3 +34,20 @@ Definition xreplay_case (rs : list nat) (slots : list nat) (mc mw : nat) (ncalls
            (picks : list tid) : string :=
   let c := mkXC (fun i => existsb (Nat.eqb i) rs) (fun i => nth (i - 1) slots 1) (opt_nat mc) (opt_nat mw) in
   join ";" (xreplay c picks (xinit ncalls prog)).
+
+From EL Require Import Model.LiveSpec.
+
+Fixpoint xcheck (c : xcfg) (picks : list tid) (x : xstate) (n : nat) : string :=
+  if negb (scan_not_alone_b c x) then "step " ++ sn n ++ ": scan alone"
+  else match picks with
+       | [] => if rest_ok_b c x then "ok" else "rest state not final"
+       | t :: rest => match xstep c x t with
+                      | Some (x', _) => xcheck c rest x' (S n)
+                      | None => "stuck"
+                      end
+       end.
+
+Definition xcheck_case (rs : list nat) (slots : list nat) (mc mw : nat) (ncalls : nat) (prog : list op)
+           (picks : list tid) : string :=
+  let c := mkXC (fun i => existsb (Nat.eqb i) rs) (fun i => nth (i - 1) slots 1) (opt_nat mc) (opt_nat mw) in
+  xcheck c picks (xinit ncalls prog) 0.
